@@ -20,7 +20,7 @@ VALUES = {"acc": "text/html, application/json;q=0.9, */*;q=0.1", "v1": "one", "v
           "ctj": "application/json; charset=utf-8", "ctf": "application/x-www-form-urlencoded", "ctm": "multipart/form-data; boundary=BB",
           "len": "@LEN", "badlen": "12x", "ref": "http://u:p@ex.com/a?b#c", "date": "Wed, 21 Oct 2015 07:28:00 GMT", "baddate": "yesterday"}
 PATHS = {"p_root": "/", "p_a": "/a/b", "p_uni": "/café/中", "p_sp": "/a b/%2F", "p_empty": ""}
-QUERIES = {"q_none": "", "q1": "a=1&a=2&b=", "q_uni": "n=%C3%A9&e+e=%26"}
+QUERIES = {"q_none": "", "q1": "a=1&a=2&b=", "q_uni": "n=%C3%A9&e+e=%26", "q_raw": "q=café"}
 BODIES = {"json": b'{"k": [1, "\xc3\xa9"]}', "form": b"a=1&b=%C3%A9&a=2", "multi": b'--BB\r\nContent-Disposition: form-data; name="f"\r\n\r\nvalue\r\n--BB\r\n'
           b'Content-Disposition: form-data; name="u"; filename="n.bin"\r\nContent-Type: application/x-t\r\n\r\n\x00\x01\xff\r\n--BB--\r\n', "none": b"", "junk": b"\xff\xfe{"}
 
